@@ -89,7 +89,7 @@ T = {
          "Predicate deliberately broad (only clear cases alarm)."),
 }
 
-IMPLEMENTED = ["C19"]
+IMPLEMENTED = ["C14", "C19"]
 
 def main():
     checks = []
